@@ -80,6 +80,8 @@ theorem row_filter_bytes : Params.rowFilters = [0, 1, 2, 3, 4] := by decide
 
 /-- chunk-size constants of the encoder model -/
 theorem encoder_constants :
-    Enc.maxIdatChunkLen = Params.maxIdatChunkLen ∧ Enc.maxFdatChunkLen = Params.maxFdatChunkLen := by decide
+    Enc.maxIdatChunkLen = Params.maxIdatChunkLen ∧ Enc.maxFdatChunkLen = Params.maxFdatChunkLen ∧
+    Enc.chunkCap = Params.streamChunkCap ∧ Enc.streamMinBuffer = Params.streamMinBuffer ∧
+    Enc.defaultBufferLength = Params.defaultBufferLength := by decide
 
 end Png.TieA
